@@ -264,7 +264,12 @@ def _emit_access_log(
         }
         if cancelled:
             extra["cancelled"] = True
-        if error_message:
+        if status == "error":
+            # Required and non-empty on an error record (docs/access-log-spec.md).
+            # An exception raised without text (``raise ValueError()``) has an
+            # empty message: report its type name rather than omit the field.
+            extra["error_message"] = error_message or error_type or "error"
+        elif error_message:
             extra["error_message"] = error_message
         if server_version:
             extra["server_version"] = server_version
